@@ -271,4 +271,8 @@ stable id, before the tear-down of in-flight requests) and `try_peer_id` (first 
 by the translator on this run -/
 theorem C04_registry_shape_checked : Gen.registryShapeChecked = true := rfl
 
+/-- **The registry is keyed by the 32-byte identity** with the derived equality, hash and order of `PeerId`
+(checked on this run): the model's `PeerId := Nat` read big-endian has the same equality and order. -/
+theorem C04_identity_is_pinned : Gen.peerIdShapeChecked = true := rfl
+
 end Anemo
